@@ -43,7 +43,8 @@ const (
 )
 
 // the stored needles: volume 3 (keys 1, 2 with one cookie, 5 and 0x163 with others) and volume 0
-// (key 1; DeleteHandler falls back to volume 0 when the volume id does not parse: finding 0)
+// (key 1; DeleteHandler used to fall back to volume 0 when the volume id did not parse - the former
+// finding 0, repaired: the volume stays so that a return of that behaviour deletes a needle and is seen)
 type slot struct{ vol, id uint64 }
 
 var seedNeedles = []struct {
@@ -234,9 +235,9 @@ type request struct {
 func main() {
 	out := hx.Flags("C34", 400)
 	out.Rule = "one request per case on real handlers over a real Store (volume 3, needles key 1 and 2); key configurations none/write/read/both (+ white list rarely); methods GET HEAD POST PUT DELETE on the private port (sometimes the public port); " +
-		"targets: existing file, its _1 sub-file, a missing key, another volume, textual variants (03, dropped leading zero), unparsable vid/fid; URL forms V,F  V/F  V/F/name  V,F.ext  V/F/x,F2 (file name carrying another file id: the repaired finding 0)  and paths on which the parsers panic; " +
+		"targets: existing file, its _1 sub-file, a missing key, another volume, textual variants (03, dropped leading zero), unparsable vid/fid; URL forms V,F  V/F  V/F/name  V,F.ext  V/F/x,F2 (file name carrying another file id: a repaired finding)  and paths on which the parsers panic; " +
 		"tokens: valid HS256/384/512 (with and without exp), wrong fid, other volume, padded volume, claim with suffix, expired, nbf/iat in the future, other key, read key for write and vice versa, alg none, RS256-looking, unknown alg, tampered payload, garbage, empty; " +
-		"carried in ?jwt=, in Authorization (Bearer/BEARER/bearer/odd forms) or both; the former witness of finding 0 (now expected: 400, nothing written) is case 0; non-trivial = the key for the request class is configured and a token is presented; distinct = (config, method, port, URL, token kinds, carrier)"
+		"carried in ?jwt=, in Authorization (Bearer/BEARER/bearer/odd forms) or both; the former witness of the repaired PostHandler finding (expected: 400, nothing written) is case 0, the former witnesses of finding 0 (DELETE of an unparsable volume id / file id under a token repeating the text; expected: 400, volume 0 untouched) are cases 1 and 2; non-trivial = the key for the request class is configured and a token is presented; distinct = (config, method, port, URL, token kinds, carrier)"
 	root := hx.NewRng(out.Seed)
 	w := newWorld()
 	defer func() { w.close() }()
@@ -264,24 +265,15 @@ func main() {
 		ufid, ufidOK := uploadFid(path)
 		un := new(needle.Needle)
 		ufidErr := un.ParsePath(ufid)
-		fidBase := fid
-		if j := strings.LastIndex(fid, "_"); j > 0 {
-			fidBase = fid[:j]
-		}
-		_, _, baseErr := needle.ParseNeedleIdCookie(fidBase)
 		// the needle the store operation addresses, by the real parsers (for the oracle bit t_names_target):
 		// an upload writes the needle CreateNeedleFromRequest builds from its own reading of the path;
-		// DeleteHandler uses what ParsePath left in the needle (a bad _delta leaves the base's id and cookie)
+		// reads and deletes address ParsePath(fid) and only when it succeeds (DeleteHandler answers 400 otherwise)
 		var addr *needle.Needle
 		if pathOK && vidErr == nil {
 			switch {
 			case isUpload:
 				if ufidOK && ufidErr == nil {
 					addr = un
-				}
-			case method == "DELETE":
-				if baseErr == nil {
-					addr = pn
 				}
 			default:
 				if fidErr == nil {
@@ -480,8 +472,8 @@ func main() {
 		}
 	}
 
-	// ---- case 0: the former witness of finding 0 (seed independent): a token for file 1 and an
-	// upload path whose file name carries file 2; with the repair it must be 400 and verdict 0 ----
+	// ---- case 0: the former witness of the PostHandler finding (seed independent): a token for file 1 and
+	// an upload path whose file name carries file 2; with the repair it must be 400 and verdict 0 ----
 	{
 		s, f := mkHS(jwt.SigningMethodHS256, writeKey, "3,01637037d6", now+1000, 0, 0)
 		q := url.Values{}
@@ -490,9 +482,10 @@ func main() {
 			toks: []tk{{s, f, "valid+claim-exact"}}, q: q, carrier: "query"})
 	}
 
-	// ---- cases 1, 2: the witnesses of finding 0 (seed independent): DeleteHandler ignores the parse
-	// errors; "x3" becomes volume 0 and needle 1 of volume 0 is deleted under a claim that denotes no
-	// file; an unparsable file id reaches the store as needle 0 and is answered 404 from there ----
+	// ---- cases 1, 2: the former witnesses of finding 0 (seed independent): DeleteHandler ignored the parse
+	// errors ("x3" became volume 0 and needle 1 of volume 0 was deleted under a claim that denotes no file;
+	// an unparsable file id reached the store as needle 0 and was answered 404 from there); with the repair
+	// both must be 400, nothing touched, verdict 0 ----
 	for _, wp := range []struct{ path, claim string }{{"/x3,01637037d6", "x3,01637037d6"}, {"/3,zz637037d6", "3,zz637037d6"}} {
 		s, f := mkHS(jwt.SigningMethodHS256, writeKey, wp.claim, now+1000, 0, 0)
 		q := url.Values{}
